@@ -43,17 +43,20 @@ Peers(n) == {(ListOf(out, inn, "out", n))[k][1] : k \in 1..Len(ListOf(out, inn, 
 OInit == out = Empty /\ inn = Empty /\ h = [n \in Nodes |-> 1] /\ inC = {} /\ res = <<>>
 
 \* ---- actions: <<name, args..>> so that they can be emitted as cases ----
-Enabled(a) ==
-  CASE a[1] = "connect"   -> h[a[2]] > 0 /\ h[a[3]] > 0 /\ Clean /\ res = <<>>   \* (results are taken on the final graph)
+\* `clean` = the environment assumption at this moment (no live node points at a released one)
+EnabledWith(a, clean) ==
+  CASE a[1] = "connect"   -> h[a[2]] > 0 /\ h[a[3]] > 0 /\ clean /\ res = <<>>   \* (results are taken on the final graph)
     [] a[1] = "clone"     -> a[2] \in CloneObjs /\ h[a[2]] < MaxH /\ h[a[2]] > 0
     [] a[1] = "drop"      -> h[a[2]] > 0
     [] a[1] = "insert"    -> a[2] \in InsertObjs /\ h[a[2]] > 0 /\ a[2] \notin inC
     [] a[1] = "dropc"     -> inC # {}
-    [] a[1] = "edges"     -> h[a[2]] > 0 /\ Clean /\ Len(res) < MaxRes      \* collect the iterated edges of a node
-    [] a[1] = "order"     -> h[a[2]] > 0 /\ Clean /\ Len(res) < MaxRes      \* preorder().search_nodes()
-    [] a[1] = "path"      -> h[a[2]] > 0 /\ Clean /\ Len(res) < MaxRes /\ a[3] # a[2] /\ a[3] \in Reach(G, a[2])
+    [] a[1] = "edges"     -> h[a[2]] > 0 /\ clean /\ Len(res) < MaxRes      \* collect the iterated edges of a node
+    [] a[1] = "order"     -> h[a[2]] > 0 /\ clean /\ Len(res) < MaxRes      \* preorder().search_nodes()
+    [] a[1] = "path"      -> h[a[2]] > 0 /\ clean /\ Len(res) < MaxRes /\ a[3] # a[2] /\ a[3] \in Reach(G, a[2])
     [] a[1] = "dropres"   -> a[2] <= Len(res)
-    [] a[1] = "lookup"    -> h[a[2]] > 0 /\ Clean      \* key look-ups: is_connected / find_* / a refused try_connect
+    [] a[1] = "lookup"    -> h[a[2]] > 0 /\ clean      \* key look-ups: is_connected / find_* / a refused try_connect
+
+Enabled(a) == EnabledWith(a, Clean)
 
 After(a) ==
   CASE a[1] = "connect"   -> LET r == ConnectOutcome(out, inn, a[2], a[3], 1) IN
